@@ -6,7 +6,7 @@ src=/tmp/seed/$id
 w=/tmp/confirm-$id
 rm -rf $w; git -C /repo worktree add -q --detach $w HEAD || exit 2
 cd $w
-demo=$(cd $src && find . -name 'seed_demo*_test.go' | head -1)
+demo=$(cd $src && find . -name "seed_demo*_test.go" -o -name "seed_demo.sh" | head -1)
 echo "demo: $demo"
 git apply $src.patch || { echo "PATCH DOES NOT APPLY"; exit 2; }
 go build ./... && echo "build: ok" || echo "build: FAILED"
